@@ -99,6 +99,10 @@ func init() {
 		e.c13StmtDef(s, pub, "NewPublisher", "newPublisherStmts")
 		e.c13StmtDef(s, pub, "Publisher.KeepAlive", "keepAliveStmts")
 		e.c13Cond(t, s, reg, "cluster.setupWatch", 1, "setupWatchRevGuard", "setupWatch: watch from the revision after the loaded one")
+		e.c13CallLoopDepth(s, reg, "cluster.load", "WithTimeout", "loadTimeoutLoopDepth")
+		e.c13CallLoopDepth(s, reg, "cluster.load", "cancel", "loadCancelLoopDepth")
+		e.c13CallLoopDepth(s, reg, "cluster.load", "Get", "loadGetLoopDepth")
+		e.c13CallArgs(s, reg, "cluster.load", "WithTimeout", "loadTimeoutArgs")
 		e.c13CallArgs(s, reg, "cluster.load", "Get", "loadGetArgs")
 		e.c13CallArgs(s, reg, "cluster.setupWatch", "Watch", "setupWatchArgs")
 		e.c13CallArgs(s, reg, "cluster.setupWatch", "WithRev", "setupWatchRevArgs")
@@ -475,4 +479,65 @@ func (e *emitter) c13CallArgs(s *source, rel, goName, callee, leanName string) {
 		return true
 	})
 	e.stringList(leanName, "arguments of the `"+callee+"` calls of `"+goName+"` in "+rel, out)
+}
+
+// c13CallLoopDepth: for every call of the named function / method inside the function (source order), the number of
+// for / range loops around it (`defer f()` counts as a call at the depth of the defer statement, marked `defer`).
+func (e *emitter) c13CallLoopDepth(s *source, rel, goName, callee, leanName string) {
+	fd := s.findFunc(rel, goName)
+	if fd == nil {
+		e.errors = append(e.errors, fmt.Sprintf("function %s not found in %s", goName, rel))
+		e.stringList(leanName, "MISSING: "+goName+" in "+rel, []string{"MISSING"})
+		return
+	}
+	var out []string
+	var walk func(n ast.Node, depth int, deferred bool)
+	walk = func(n ast.Node, depth int, deferred bool) {
+		if n == nil {
+			return
+		}
+		ast.Inspect(n, func(m ast.Node) bool {
+			switch x := m.(type) {
+			case *ast.ForStmt:
+				if x.Init != nil {
+					walk(x.Init, depth, deferred)
+				}
+				if x.Cond != nil {
+					walk(x.Cond, depth+1, deferred)
+				}
+				if x.Post != nil {
+					walk(x.Post, depth+1, deferred)
+				}
+				walk(x.Body, depth+1, deferred)
+				return false
+			case *ast.RangeStmt:
+				walk(x.X, depth, deferred)
+				walk(x.Body, depth+1, deferred)
+				return false
+			case *ast.DeferStmt:
+				walk(x.Call, depth, true)
+				return false
+			case *ast.FuncLit:
+				return false
+			case *ast.CallExpr:
+				nm := ""
+				switch f := x.Fun.(type) {
+				case *ast.SelectorExpr:
+					nm = f.Sel.Name
+				case *ast.Ident:
+					nm = f.Name
+				}
+				if nm == callee {
+					t := strconv.Itoa(depth)
+					if deferred {
+						t = "defer " + t
+					}
+					out = append(out, t)
+				}
+			}
+			return true
+		})
+	}
+	walk(fd.Body, 0, false)
+	e.stringList(leanName, "loop depth of the `"+callee+"` calls of `"+goName+"` in "+rel, out)
 }
